@@ -1,8 +1,6 @@
-(* Proofs/ExprRead.v — C19, clause 2 (partial): on token lists written with numbers, variables,
-   constants, parentheses, the binary operators + - * / ^ and the postfix !, WITHOUT prefix minus,
-   functions, %, explicit · and juxtaposition, the Pratt parser returns exactly the tree of the
-   stratified reference reader (up to the paren flags, which carry no meaning).
-   The excluded constructs are where the current code deviates (Proofs/ExprRefute.v). *)
+(* Proofs/ExprRead.v — C19, clause 2, general lemmas: what parse_expr leaves behind, the fuel of
+   the reference reader, assembling phrases of the reference reader.  The simulation itself is in
+   Proofs/ExprReadJuxt.v. *)
 From Coq Require Import ZArith NArith List Bool Lia.
 From SV Require Import Base.Num Base.Outcome Base.Str Model.Expr Model.RefExpr Proofs.ExprTotal.
 Import ListNotations.
@@ -52,7 +50,7 @@ Section Read.
   Proof.
     induction f as [|f IH]; intros ts bp e r H; [discriminate|].
     rewrite parse_expr_unfold in H.
-    destruct (prefix_part f ts) as [[l r0]|e0|w] eqn:E; cbn [bind] in H; try discriminate.
+    destruct (prefix_part f ts bp) as [[l r0]|e0|w] eqn:E; cbn [bind] in H; try discriminate.
     pose proof (strip_fac_head r0 l) as Hs.
     destruct (strip_fac l r0) as [l' r'] eqn:E2. cbn [snd] in Hs.
     apply (bin_loop_head _ IH _ _ _ _ _ _ Hs H).
@@ -101,18 +99,21 @@ Section Read.
   Qed.
 
   Lemma prefix_part_after f : ends_well (parse_expr f) ->
-    forall ts e r, prefix_part f ts = Ok (e, r) -> after_operand ts r.
+    forall ts bp e r, prefix_part f ts bp = Ok (e, r) -> after_operand ts r.
   Proof.
-    intros Hrec ts e r H. unfold prefix_part in H.
+    intros Hrec ts bp e r H. unfold prefix_part in H.
     destruct ts as [|t ts']; [discriminate|].
     destruct t as [x|v|op|fn|c| |]; try discriminate;
       try (injection H as <- <-; eexists [], _; split; reflexivity).
     - destruct (oper_eqb op OSub); [|discriminate].
-      destruct (parse_expr f ts' BP_PREFIX_MINUS) as [[v r1]|e0|w] eqn:E; cbn [bind] in H; try discriminate.
+      destruct (parse_expr f ts' (Nat.max bp BP_PREFIX_MINUS)) as [[v r1]|e0|w] eqn:E; cbn [bind] in H; try discriminate.
       injection H as <- <-. apply after_operand_cons. apply (Hrec _ _ _ _ E).
     - destruct ts' as [|t2 ts2]; [discriminate|]. destruct t2; try discriminate.
-      destruct (parse_expr f (TLParen :: ts2) BP_FUNCTION_ARG) as [[v r1]|e0|w] eqn:E; cbn [bind] in H; try discriminate.
-      injection H as <- <-. apply after_operand_cons. apply (Hrec _ _ _ _ E).
+      destruct (parse_expr f ts2 0) as [[v r1]|e0|w] eqn:E; cbn [bind] in H; try discriminate.
+      destruct r1 as [|t1 r2]; [discriminate|]. destruct t1; try discriminate.
+      injection H as <- <-. apply Hrec in E. destruct E as (pre & t & -> & _).
+      exists (TFun fn :: TLParen :: pre ++ [t]), TRParen. split; [|reflexivity].
+      cbn. rewrite <- app_assoc. reflexivity.
     - destruct (parse_expr f ts' 0) as [[v r1]|e0|w] eqn:E; cbn [bind] in H; try discriminate.
       destruct r1 as [|t1 r2]; [discriminate|]. destruct t1; try discriminate.
       injection H as <- <-. apply Hrec in E. destruct E as (pre & t & -> & _).
@@ -124,7 +125,7 @@ Section Read.
   Proof.
     induction f as [|f IH]; intros ts bp e r H; [discriminate|].
     rewrite parse_expr_unfold in H.
-    destruct (prefix_part f ts) as [[l r0]|e0|w] eqn:E; cbn [bind] in H; try discriminate.
+    destruct (prefix_part f ts bp) as [[l r0]|e0|w] eqn:E; cbn [bind] in H; try discriminate.
     apply (prefix_part_after f IH) in E.
     pose proof (strip_fac_after r0 l) as Hs.
     destruct (strip_fac l r0) as [l' r'] eqn:E2. cbn [snd] in Hs.
@@ -245,7 +246,7 @@ Section Read.
         try (destruct (Hj H) as (L & F); split; [exact L|]; intros [|m] Hm; [unfold need in Hm; lia|]; cbn [rd]; apply F; exact Hm).
       destruct o;
         try (destruct (Hj H) as (L & F); split; [exact L|]; intros [|m] Hm; [unfold need in Hm; lia|]; cbn [rd]; apply F; exact Hm).
-      destruct (rd n LUnary r0) as [[x r']|] eqn:E1; [|discriminate]. injection H as <- <-.
+      destruct (rd n LExponent r0) as [[x r']|] eqn:E1; [|discriminate]. injection H as <- <-.
       destruct (IH _ _ _ _ E1) as (L1 & F1). cbn [length]. split; [lia|].
       intros [|m] Hm; [lia|]. cbn [rd]. rewrite F1; [reflexivity|].
       unfold need in *. cbn [rank length] in *. lia.
@@ -285,82 +286,10 @@ Section Read.
     intros H. unfold ref_read, ref_fuel. rewrite (rd_lift n LSum ts e [] _ H) by lia. reflexivity.
   Qed.
 
-  (* ---- C. the fragment -------------------------------------------------------------------------- *)
-  (* trees up to the paren flag *)
-  Fixpoint erase (e : tree) : tree :=
-    match e with
-    | EFun f i => EFun f (erase i)
-    | EPre o v => EPre o (erase v)
-    | EPost o v => EPost o (erase v)
-    | EBin o l r _ => EBin o (erase l) (erase r) false
-    | _ => e
-    end.
 
-  Lemma erase_set_paren e : erase (set_paren e) = erase e.
-  Proof. destruct e; reflexivity. Qed.
-
-  Lemma strip_fac_bangs : forall (ts : list tok) l,
-    bangs (erase l) ts = (erase (fst (strip_fac l ts)), snd (strip_fac l ts)).
-  Proof.
-    induction ts as [|t ts IH]; intros l; cbn; [reflexivity|].
-    destruct t as [| |o| | | |]; cbn; try reflexivity. destruct o; cbn; try reflexivity.
-    apply (IH (EPost OFac l)).
-  Qed.
-
-  (* tokens of the fragment: no function, no %, no explicit · *)
-  Definition plain (t : tok) : bool :=
-    match t with TFun _ => false | TOp ORem => false | TOp OCDot => false | _ => true end.
-  (* neighbours: no juxtaposition (an operand end followed by an operand start), and a minus only
-     after an operand end (so it is a binary minus) *)
-  Definition pair_ok (a b : tok) : bool :=
-    negb (ends_operand a && starts_atom b)
-    && match b with TOp OSub => ends_operand a | _ => true end.
-  Fixpoint frag_tail (ts : list tok) : bool :=
-    match ts with
-    | a :: r => plain a && match r with b :: _ => pair_ok a b | [] => true end && frag_tail r
-    | [] => true
-    end.
+  (* ---- C. assembling phrases of the reference reader ---------------------------------------------- *)
   Definition no_minus_head (ts : list tok) : Prop :=
     match ts with TOp OSub :: _ => False | _ => True end.
-  Definition fragment (ts : list tok) : Prop := frag_tail ts = true /\ no_minus_head ts.
-
-  Lemma frag_tail_cons a r : frag_tail (a :: r) = true -> plain a = true /\ frag_tail r = true.
-  Proof. cbn [frag_tail]. intros H. apply andb_prop in H as [H H2]. apply andb_prop in H as [H1 _]. auto. Qed.
-
-  Lemma frag_tail_app : forall pre r, frag_tail (pre ++ r) = true -> frag_tail r = true.
-  Proof.
-    induction pre as [|a pre IH]; intros r H; [exact H|].
-    apply IH. apply (frag_tail_cons a). exact H.
-  Qed.
-
-  Lemma frag_tail_pair a b r : frag_tail (a :: b :: r) = true -> pair_ok a b = true.
-  Proof. cbn [frag_tail]. intros H. apply andb_prop in H as [H _]. apply andb_prop in H as [_ H]. exact H. Qed.
-
-  (* the next token does not start an operand *)
-  Definition calm (r : list tok) : Prop :=
-    match r with b :: _ => starts_atom b = false | [] => True end.
-
-  Lemma after_calm ts r : frag_tail ts = true -> after_operand ts r -> calm r.
-  Proof.
-    intros Hf (pre & t & -> & Ht). apply frag_tail_app in Hf.
-    destruct r as [|b r]; [exact I|]. apply frag_tail_pair in Hf.
-    unfold pair_ok in Hf. rewrite Ht in Hf. cbn. destruct (starts_atom b); [discriminate|reflexivity].
-  Qed.
-
-  Lemma after_suffix ts r : frag_tail ts = true -> after_operand ts r -> frag_tail r = true.
-  Proof.
-    intros Hf (pre & t & -> & _). apply frag_tail_app in Hf. apply (frag_tail_cons t). exact Hf.
-  Qed.
-
-  Lemma no_minus_after a r :
-    frag_tail (a :: r) = true -> ends_operand a = false -> no_minus_head r.
-  Proof.
-    intros Hf Ha. destruct r as [|b r]; [exact I|]. apply frag_tail_pair in Hf.
-    unfold pair_ok in Hf. rewrite Ha in Hf. cbn in Hf.
-    destruct b as [| |o| | | |]; try exact I. destruct o; try exact I. discriminate.
-  Qed.
-
-  (* ---- D. assembling phrases of the reference reader ---------------------------------------------- *)
   Definition big (ts : list tok) : nat := 8 * length ts + 8.
 
   Lemma asm_chain lo opof n1 n2 k (ts : list tok) x r0 a r1 l :
@@ -415,254 +344,9 @@ Section Read.
     intros Hm H. cbn [rd]. destruct ts as [|[| |o| | | |] r]; try exact H. destruct o; try exact H. contradiction.
   Qed.
 
-  (* ---- E. the simulation ------------------------------------------------------------------------------ *)
-  (* what the reference reader does after a postfix phrase, down to the level that corresponds to bp *)
-  Definition tails (K1 K2 K3 K4 N bp : nat) (acc : tree) (ts : list tok) : phrase :=
-    if 6 <=? bp then Some (acc, ts) else
-    match chain K1 (rd N LExponent) power_op acc ts with
-    | None => None
-    | Some (a, r1) =>
-      match juxt_chain K2 (rd N LPower) a r1 with
-      | None => None
-      | Some (a2, r2) =>
-        if 3 <=? bp then Some (a2, r2) else
-        match chain K3 (rd N LUnary) product_op a2 r2 with
-        | None => None
-        | Some (b, r3) => if 2 <=? bp then Some (b, r3) else chain K4 (rd N LProduct) sum_op b r3
-        end
-      end
-    end.
-
-  Definition level_of (bp : nat) : level :=
-    if 6 <=? bp then LExponent else if 3 <=? bp then LUnary else if 2 <=? bp then LProduct else LSum.
-
-  Definition Sim (f : nat) : Prop :=
-    forall ts bp e r, frag_tail ts = true -> no_minus_head ts ->
-      @parse_expr T f ts bp = Ok (e, r) -> exists n, rd n (level_of bp) ts = Some (erase e, r).
-
-  Lemma power_skip bp (r : list tok) : head_ok bp r -> bp <= 5 ->
-    forall K operand acc, chain (S K) operand power_op acc r = Some (acc, r).
-  Proof.
-    intros H Hb K operand acc. destruct r as [|[| |o| | | |] r]; cbn; try reflexivity.
-    destruct o; cbn in *; try reflexivity. lia.
-  Qed.
-
-  Lemma product_skip bp (r : list tok) : head_ok bp r -> bp <= 2 ->
-    forall K operand acc, chain (S K) operand product_op acc r = Some (acc, r).
-  Proof.
-    intros H Hb K operand acc. destruct r as [|[| |o| | | |] r]; cbn; try reflexivity.
-    destruct o; cbn in *; try reflexivity; lia.
-  Qed.
-
-  Lemma juxt_skip (r : list tok) : calm r ->
-    forall K operand acc, juxt_chain (S K) operand acc r = Some (acc, r).
-  Proof.
-    intros H K operand acc. destruct r as [|t r]; cbn; [reflexivity|]. cbn in H. rewrite H. reflexivity.
-  Qed.
-
-  Lemma tails_stop K1 K2 K3 K4 N bp acc (ts : list tok) :
-    calm ts ->
-    match ts with TOp o :: _ => plain (TOp o) = true /\ o <> OFac /\ binding_pow o < bp | _ => True end ->
-    tails (S K1) (S K2) (S K3) (S K4) N bp acc ts = Some (acc, ts).
-  Proof.
-    intros Hc Ho. unfold tails.
-    destruct (Nat.leb_spec 6 bp) as [H6|H6]; [reflexivity|].
-    destruct ts as [|t r].
-    { cbn [chain juxt_chain]. destruct (3 <=? bp); [reflexivity|]. destruct (2 <=? bp); reflexivity. }
-    destruct t as [x|v|o|fn|c| |]; try (cbn in Hc; discriminate);
-      try (cbn [chain juxt_chain starts_atom power_op product_op sum_op];
-           destruct (3 <=? bp); [reflexivity|]; destruct (2 <=? bp); reflexivity).
-    destruct Ho as (Hp & Hf & Hb).
-    destruct o; cbn in Hp, Hb; try discriminate; try contradiction;
-      cbn [chain juxt_chain starts_atom power_op product_op sum_op].
-    - (* Add *) destruct (Nat.leb_spec 3 bp); [reflexivity|]. destruct (Nat.leb_spec 2 bp); [reflexivity|lia].
-    - (* Sub *) destruct (Nat.leb_spec 3 bp); [reflexivity|]. destruct (Nat.leb_spec 2 bp); [reflexivity|lia].
-    - (* Div *) destruct (Nat.leb_spec 3 bp); [reflexivity|lia].
-    - (* Mul *) destruct (Nat.leb_spec 3 bp); [reflexivity|lia].
-    - (* Caret *) lia.
-  Qed.
-
-  Lemma bin_loop_sim f : Sim f ->
-    forall n l ts bp e r, frag_tail ts = true -> head_not_fac ts -> calm ts ->
-      bin_loop (parse_expr f) n l ts bp = Ok (e, r) ->
-      exists K0 N0, forall K1 K2 K3 K4 N, K0 <= K1 -> K0 <= K2 -> K0 <= K3 -> K0 <= K4 -> N0 <= N ->
-        tails K1 K2 K3 K4 N bp (erase l) ts = Some (erase e, r).
-  Proof.
-    intros HSim. induction n as [|n IH]; intros l ts bp e r Hf Hnf Hc H; [discriminate|].
-    cbn [bin_loop] in H.
-    assert (Hstop : forall (x : tree) (rr : list tok), Ok (l, ts) = Ok (x, rr) ->
-              match ts with TOp o :: _ => plain (TOp o) = true /\ o <> OFac /\ binding_pow o < bp | _ => True end ->
-              exists K0 N0, forall K1 K2 K3 K4 N, K0 <= K1 -> K0 <= K2 -> K0 <= K3 -> K0 <= K4 -> N0 <= N ->
-                tails K1 K2 K3 K4 N bp (erase l) ts = Some (erase x, rr)).
-    { intros x rr Hx Ho. injection Hx as <- <-. exists 1, 0.
-      intros [|K1] [|K2] [|K3] [|K4] N; try lia. intros _ _ _ _ _. apply tails_stop; assumption. }
-    destruct ts as [|t ts']; [apply (Hstop _ _ H I)|].
-    destruct t as [x|v|op|fn|c| |]; try (apply (Hstop _ _ H I)).
-    destruct (frag_tail_cons _ _ Hf) as (Hplain & Hf').
-    assert (Hnfac : op <> OFac) by (intros ->; exact Hnf).
-    destruct (binding_pow op <? bp)%nat eqn:Eb.
-    { apply (Hstop _ _ H). apply Nat.ltb_lt in Eb. auto. }
-    apply Nat.ltb_ge in Eb.
-    destruct (parse_expr f ts' (binding_pow op + 1)) as [[rg r']|e0|w] eqn:E; cbn [bind] in H; try discriminate.
-    pose proof (parse_expr_head f _ _ _ _ E) as Hhead.
-    pose proof (parse_expr_after f _ _ _ _ E) as Haft.
-    pose proof (after_suffix _ _ Hf' Haft) as Hfr'.
-    pose proof (after_calm _ _ Hf' Haft) as Hcalm'.
-    assert (Hnm : no_minus_head ts').
-    { apply (no_minus_after (TOp op)); [exact Hf|]. destruct op; try reflexivity. contradiction. }
-    destruct (HSim _ _ _ _ Hf' Hnm E) as (n1 & Hoperand).
-    destruct (IH _ _ _ _ _ Hfr' (head_ok_not_fac _ _ Hhead) Hcalm' H) as (K0 & N0 & HIH).
-    exists (S (S K0)), (Nat.max N0 (8 * length ts' + 7)).
-    intros K1 K2 K3 K4 N HK1 HK2 HK3 HK4 HN.
-    pose proof (rd_lift _ _ _ _ _ N Hoperand ltac:(lia)) as Hop. clear Hoperand.
-    destruct K1 as [|K1]; [lia|]. destruct K2 as [|K2]; [lia|].
-    destruct K3 as [|K3]; [lia|]. destruct K4 as [|K4]; [lia|].
-    destruct op; cbn in Hplain, Eb, Hhead, Hop; try discriminate; try contradiction;
-      cbn [oper_eqb] in HIH; cbn [erase] in HIH.
-    - (* Add *)
-      specialize (HIH (S K1) (S K2) (S K3) K4 N ltac:(lia) ltac:(lia) ltac:(lia) ltac:(lia) ltac:(lia)).
-      unfold tails in HIH |- *.
-      destruct (Nat.leb_spec 6 bp); [lia|]. destruct (Nat.leb_spec 3 bp); [lia|]. destruct (Nat.leb_spec 2 bp); [lia|].
-      rewrite (power_skip 2 _ Hhead ltac:(lia)), (juxt_skip _ Hcalm'), (product_skip 2 _ Hhead ltac:(lia)) in HIH.
-      cbn [chain juxt_chain power_op product_op sum_op starts_atom]. unfold level_of in Hop. cbn in Hop.
-      rewrite Hop. exact HIH.
-    - (* Sub *)
-      specialize (HIH (S K1) (S K2) (S K3) K4 N ltac:(lia) ltac:(lia) ltac:(lia) ltac:(lia) ltac:(lia)).
-      unfold tails in HIH |- *.
-      destruct (Nat.leb_spec 6 bp); [lia|]. destruct (Nat.leb_spec 3 bp); [lia|]. destruct (Nat.leb_spec 2 bp); [lia|].
-      rewrite (power_skip 2 _ Hhead ltac:(lia)), (juxt_skip _ Hcalm'), (product_skip 2 _ Hhead ltac:(lia)) in HIH.
-      cbn [chain juxt_chain power_op product_op sum_op starts_atom]. unfold level_of in Hop. cbn in Hop.
-      rewrite Hop. exact HIH.
-    - (* Div *)
-      specialize (HIH (S K1) (S K2) K3 (S K4) N ltac:(lia) ltac:(lia) ltac:(lia) ltac:(lia) ltac:(lia)).
-      unfold tails in HIH |- *.
-      destruct (Nat.leb_spec 6 bp); [lia|]. destruct (Nat.leb_spec 3 bp); [lia|].
-      rewrite (power_skip 3 _ Hhead ltac:(lia)), (juxt_skip _ Hcalm') in HIH.
-      cbn [chain juxt_chain power_op product_op sum_op starts_atom]. unfold level_of in Hop. cbn in Hop.
-      rewrite Hop. exact HIH.
-    - (* Mul *)
-      specialize (HIH (S K1) (S K2) K3 (S K4) N ltac:(lia) ltac:(lia) ltac:(lia) ltac:(lia) ltac:(lia)).
-      unfold tails in HIH |- *.
-      destruct (Nat.leb_spec 6 bp); [lia|]. destruct (Nat.leb_spec 3 bp); [lia|].
-      rewrite (power_skip 3 _ Hhead ltac:(lia)), (juxt_skip _ Hcalm') in HIH.
-      cbn [chain juxt_chain power_op product_op sum_op starts_atom]. unfold level_of in Hop. cbn in Hop.
-      rewrite Hop. exact HIH.
-    - (* Caret *)
-      specialize (HIH K1 (S K2) (S K3) (S K4) N ltac:(lia) ltac:(lia) ltac:(lia) ltac:(lia) ltac:(lia)).
-      unfold tails in HIH |- *.
-      destruct (Nat.leb_spec 6 bp); [lia|].
-      cbn [chain power_op]. unfold level_of in Hop. cbn in Hop.
-      rewrite Hop. exact HIH.
-  Qed.
-
-  Lemma sim : forall f, Sim f.
-  Proof.
-    induction f as [|f IHf]; intros ts bp e r Hf Hnm H; [discriminate|].
-    rewrite parse_expr_unfold in H.
-    destruct (prefix_part f ts) as [[l r0]|e0|w] eqn:E; cbn [bind] in H; try discriminate.
-    pose proof (prefix_part_after f (parse_expr_after f) _ _ _ E) as Haft0.
-    (* the atom *)
-    assert (Hatom : exists n, rd n LAtom ts = Some (erase l, r0)).
-    { unfold prefix_part in E. destruct ts as [|t ts']; [discriminate|].
-      destruct (frag_tail_cons _ _ Hf) as (Hplain & Hf').
-      destruct t as [x|v|op|fn|c| |]; try discriminate;
-        try (injection E as <- <-; exists 1; reflexivity).
-      - destruct (oper_eqb op OSub) eqn:Eo; [|discriminate]. destruct op; try discriminate. contradiction.
-      - destruct (parse_expr f ts' 0) as [[e1 r1]|e1|w1] eqn:E1; cbn [bind] in E; try discriminate.
-        destruct r1 as [|t1 r2]; [discriminate|]. destruct t1; try discriminate.
-        injection E as <- <-.
-        assert (Hnm' : no_minus_head ts') by (apply (no_minus_after TLParen); [exact Hf|reflexivity]).
-        destruct (IHf _ _ _ _ Hf' Hnm' E1) as (n & Hn). unfold level_of in Hn. cbn in Hn.
-        exists (S n). cbn [rd]. rewrite Hn. rewrite erase_set_paren. reflexivity. }
-    destruct Hatom as (na & Hatom).
-    pose proof (strip_fac_bangs r0 l) as Hb.
-    pose proof (strip_fac_head r0 l) as Hsf.
-    pose proof (strip_fac_after r0 l) as Hsa.
-    destruct (strip_fac l r0) as [l' r'] eqn:E2. cbn [fst snd] in Hb, Hsf, Hsa.
-    assert (Hpost : rd (S na) LPostfix ts = Some (erase l', r')).
-    { cbn [rd]. rewrite Hatom, Hb. reflexivity. }
-    pose proof (after_operand_trans _ _ _ Haft0 Hsa) as Haft.
-    pose proof (after_suffix _ _ Hf Haft) as Hfr'.
-    pose proof (after_calm _ _ Hf Haft) as Hcalm'.
-    destruct (bin_loop_sim f IHf _ _ _ _ _ _ Hfr' Hsf Hcalm' H) as (K0 & N0 & Ht).
-    specialize (Ht K0 K0 K0 K0 N0 (le_n _) (le_n _) (le_n _) (le_n _) (le_n _)).
-    unfold tails in Ht. unfold level_of.
-    destruct (6 <=? bp).
-    { injection Ht as <- <-. exists (S (S na)). apply asm_exponent; assumption. }
-    destruct (chain K0 (rd N0 LExponent) power_op (erase l') r') as [[a r1]|] eqn:C1; [|discriminate].
-    destruct (juxt_chain K0 (rd N0 LPower) a r1) as [[a2 r2]|] eqn:C2; [|discriminate].
-    destruct (asm_power _ _ _ _ _ _ _ _ Hpost C1) as (np & Hp).
-    destruct (asm_juxt _ _ _ _ _ _ _ _ Hp C2) as (nj & Hj).
-    pose proof (asm_unary _ _ _ Hnm Hj) as Hu.
-    destruct (3 <=? bp).
-    { injection Ht as <- <-. exists (S nj). exact Hu. }
-    destruct (chain K0 (rd N0 LUnary) product_op a2 r2) as [[b r3]|] eqn:C3; [|discriminate].
-    destruct (asm_product _ _ _ _ _ _ _ _ Hu C3) as (npr & Hpr).
-    destruct (2 <=? bp).
-    { injection Ht as <- <-. exists npr. exact Hpr. }
-    apply (asm_sum _ _ _ _ _ _ _ _ Hpr Ht).
-  Qed.
-
-  (* implied_mul inserts nothing into a text of the fragment *)
-  Lemma needs_cdot_pair a b : @needs_cdot T a b = true -> ends_operand a && starts_atom b = true.
-  Proof. destruct a, b; cbn; try discriminate; reflexivity. Qed.
-
-  Lemma implied_mul_fragment : forall ts : list tok, frag_tail ts = true -> implied_mul ts = ts.
-  Proof.
-    induction ts as [|a r IH]; intros Hf; [reflexivity|].
-    destruct (frag_tail_cons _ _ Hf) as (_ & Hf').
-    cbn [implied_mul]. destruct r as [|b r']; [reflexivity|].
-    pose proof (frag_tail_pair _ _ _ Hf) as Hp. unfold pair_ok in Hp.
-    destruct (needs_cdot a b) eqn:En.
-    - apply needs_cdot_pair in En. rewrite En in Hp. discriminate.
-    - rewrite (IH Hf'). reflexivity.
-  Qed.
-
-  Lemma parse_unfolded_reads : forall (ts : list tok) e,
-    fragment ts -> parse_unfolded ts = Ok e -> ref_read ts = Some (erase e).
-  Proof.
-    intros ts e (Hf & Hnm) H. unfold parse_unfolded in H.
-    rewrite (implied_mul_fragment ts Hf) in H.
-    destruct (parse_expr (S (length ts)) ts 0) as [[e1 r]|e1|w] eqn:E; cbn [bind] in H; try discriminate.
-    destruct r; [|discriminate]. injection H as <-.
-    destruct (sim _ _ _ _ _ Hf Hnm E) as (n & Hn).
-    apply (ref_read_of_rd n). exact Hn.
-  Qed.
+  (* a phrase behind a minus sign *)
+  Lemma asm_neg_unary n (r : list tok) x s : rd n LUnary r = Some (x, s) -> rd (S n) LUnary (TOp OSub :: r) = Some (EPre OSub x, s).
+  Proof. intros H. cbn [rd]. rewrite H. reflexivity. Qed.
+  Lemma asm_neg_exponent n (r : list tok) x s : rd n LExponent r = Some (x, s) -> rd (S n) LExponent (TOp OSub :: r) = Some (EPre OSub x, s).
+  Proof. intros H. cbn [rd]. rewrite H. reflexivity. Qed.
 End Read.
-
-(* ---- F. values (R instance) --------------------------------------------------------------------------- *)
-From Coq Require Import Reals.
-From SV Require Import Proofs.ExprFold.
-
-Lemma denote_erase : forall (e : expr R) rho, denote (erase e) rho = denote e rho.
-Proof.
-  induction e as [x|s|c|f i IH|o s IH|o s IH|op l IHl r IHr p]; intros rho; cbn [erase denote]; try reflexivity.
-  - rewrite IH. reflexivity.
-  - rewrite IH. reflexivity.
-  - rewrite IH. reflexivity.
-  - rewrite IHl, IHr. reflexivity.
-Qed.
-
-(* on the fragment the unfolded tree of the parser IS the conventional reading *)
-Lemma c19_parser_reads_partial_lemma : forall (ts : list (token R)) (e : expr R),
-  fragment ts -> parse_unfolded ts = Ok e ->
-  exists e', ref_read ts = Some e' /\ e' = erase e /\ forall rho, denote e rho = denote e' rho.
-Proof.
-  intros ts e Hf H. exists (erase e). split; [apply parse_unfolded_reads; assumption|].
-  split; [reflexivity|]. intros rho. symmetry. apply denote_erase.
-Qed.
-
-(* ... and the folded tree returned by parser has the value of the reading wherever that value is
-   defined and the fold is sound (Proofs/ExprFold.v) *)
-Lemma c19_parser_reads_folded_partial_lemma : forall (ts : list (token R)) (e : expr R),
-  fragment ts -> parser ts = Ok e ->
-  exists u e', parse_unfolded ts = Ok u /\ ref_read ts = Some e' /\
-    forall rho v, denote e' rho = Some v -> pow_safe u rho -> denote e rho = Some v.
-Proof.
-  intros ts e Hf H. unfold parser in H.
-  destruct (parse_unfolded ts) as [u|e0|w] eqn:E; cbn [bind] in H; try discriminate.
-  exists u, (erase u). split; [reflexivity|]. split; [apply parse_unfolded_reads; assumption|].
-  intros rho v Hv Hs. rewrite denote_erase in Hv.
-  rewrite fold_operations_foldS in H. injection H as <-.
-  apply foldS_sound; assumption.
-Qed.
